@@ -153,6 +153,21 @@ void slu_vhook(const char *event, const char *fmt, ...)
     fwrite(buf, 1, n, t_out);
 }
 
+/* exact JSON token of a double (same encoding as the harness: [num, ld] or [sign, hi, mid, lo, ld]) */
+#include <math.h>
+const char *slu_v_tok(double v)
+{
+    static __thread char bufs[4][64]; static __thread int k; char *b = bufs[k = (k + 1) & 3];
+    if (v == 0) return "[0,0]";
+    if (isnan(v)) return "[0,0,0,0,99999]";
+    if (isinf(v)) return v > 0 ? "[1,0,0,0,88888]" : "[-1,0,0,0,88888]";
+    int e; double m = frexp(v, &e); long long M = (long long)ldexp(m, 53); e -= 53;
+    while ((M & 1) == 0) { M >>= 1; e++; }
+    if (llabs(M) < (1LL << 30)) snprintf(b, 64, "[%lld,%d]", M, -e);
+    else { long long A = llabs(M); snprintf(b, 64, "[%d,%lld,%lld,%lld,%d]", M < 0 ? -1 : 1, A >> 40, (A >> 20) & 0xFFFFF, A & 0xFFFFF, -e); }
+    return b;
+}
+
 /* state printer for the memory / column hooks: standard fields of the allocator state */
 #include "slu_ddefs.h"
 void slu_vhook_mem(const char *event, const GlobalLU_t *Glu, const char *fmt, ...)
